@@ -20,7 +20,7 @@ type timeT = time.Time
 // Profile weights the operation alphabet of a case.
 type Profile struct {
 	Send, Recv, RecvDup, Ack, AckDup, Timeout, TimeoutEarly, TimeoutReceived, RecvAfterTimeout int
-	Replay, Mutate, AsyncAck, Commit, Close, OutOfOrder, Redirect, Boundary, SendBoundary      int
+	Replay, Mutate, AsyncAck, Commit, Close, OutOfOrder, Redirect, Boundary, SendBoundary, Reopen int
 	SoonPct                                                                                    int // % of sends with a soon-expiring timeout
 	MultiPayloadPct                                                                            int
 }
@@ -242,6 +242,7 @@ func (s *Sim) Step(pr Profile) string {
 		}},
 		{pr.Close, func() string { return s.closeOp() }},
 		{pr.Redirect, func() string { return s.redirectOp() }},
+		{pr.Reopen, func() string { return s.reopenOp() }},
 		{pr.SendBoundary, func() string { return s.sendBoundaryOp() }},
 		{pr.Boundary, func() string { return s.boundaryOp() }},
 	}
@@ -327,6 +328,44 @@ func (s *Sim) closeOp() string {
 		return "close-toc-" + okStr(o)
 	}
 	return "close"
+}
+
+// reopenOp replays the last handshake step (with a fresh, honest proof of the counterparty end) on an end that was closed.
+func (s *Sim) reopenOp() string {
+	for _, l := range s.Lanes {
+		if l.V2 {
+			continue
+		}
+		for side := 0; side < 2; side++ {
+			if !l.ClosedByTimeout[side] && !l.ClosedByUs[side] {
+				continue
+			}
+			if err := s.update(l, side); err != nil {
+				continue
+			}
+			var err error
+			step := "confirm"
+			if e := kit.Try(func() {
+				if side == 1 {
+					err = l.ep(side).ChanOpenConfirm()
+				} else {
+					step = "ack"
+					err = l.ep(side).ChanOpenAck()
+				}
+			}); e != nil {
+				continue
+			}
+			s.C.Inc("reopen_attempts")
+			if err == nil {
+				s.C.Inc("reopen_attempts_accepted")
+				if l.ClosedByUs[side] && !l.ClosedByTimeout[side] {
+					s.viol("C12", "closed-channel-reopened", "lane %s side %d: open-%s accepted on a CLOSED end", l.Name, side, step)
+				}
+			}
+			return "reopen-" + step
+		}
+	}
+	return ""
 }
 
 // redirectOp presents a packet really committed on one v1 channel to the destination end of ANOTHER channel of the
